@@ -259,6 +259,15 @@ func (g *gen) newHost(i int) HostSpec {
 		if g.rng.Intn(6) == 0 {
 			h.Path = "/app" // "/" is left to strict-host
 		}
+		// per path configuration: differing ones on the paths of a backend need path ACLs
+		if !h.Passthrough && g.rng.Intn(2) == 0 {
+			h.PathCfg = PathCfgKinds[g.rng.Intn(len(PathCfgKinds))]
+			if g.rng.Intn(2) == 0 {
+				h.Path2Cfg = PathCfgKinds[g.rng.Intn(len(PathCfgKinds))]
+			}
+		} else if !h.Passthrough && g.rng.Intn(4) == 0 {
+			h.Path2Cfg = PathCfgKinds[g.rng.Intn(len(PathCfgKinds))]
+		}
 	}
 	if g.rng.Intn(4) != 0 {
 		h.Crt = fmt.Sprintf("crt%d", i)
@@ -470,6 +479,12 @@ func (g *gen) step() (Step, string) {
 			g.certv++
 			h.AuthTLS = fmt.Sprintf("ca-v%d", g.certv)
 			op += "host-ca-content "
+		case kind == 6 && h.Backend != "" && !h.Passthrough && rng.Intn(2) == 0:
+			h.PathCfg = PathCfgKinds[rng.Intn(len(PathCfgKinds))]
+			if rng.Intn(2) == 0 {
+				h.PathCfg = ""
+			}
+			op += "path-config "
 		case kind == 6:
 			h.Extra += "/x"
 			op += "host-field "
